@@ -266,6 +266,25 @@ func SymbolCorpus() *ref.Repo {
 	add("s3.go", "no symbols here abc")
 	add("s4.go", "ABC abc Abc", [2]int{0, 3}, [2]int{8, 11})
 	add("s5.go", "a\nabc\nb", [2]int{2, 5})
+	// non-ASCII symbol names: a pattern with multi-byte runes that ends exactly at / shortly before the
+	// end of a symbol (byte length and rune length of the pattern differ)
+	addNamed := func(name, content string, names ...string) {
+		var syms [][2]int
+		from := 0
+		for _, n := range names {
+			i := strings.Index(content[from:], n)
+			if i < 0 {
+				panic("gen: symbol " + n + " not in " + content)
+			}
+			syms = append(syms, [2]int{from + i, from + i + len(n)})
+			from += i + len(n)
+		}
+		add(name, content, syms...)
+	}
+	addNamed("s6.go", "var größe = 1", "größe")
+	addNamed("s7.go", "var maxgröße = 2 // größe", "maxgröße")
+	addNamed("s8.go", "var größenordnung, abcé, éé int", "größenordnung", "abcé", "éé")
+	addNamed("s9.go", "größe outside, then sym xgrößex", "xgrößex")
 	return r
 }
 
